@@ -667,6 +667,25 @@ func inlineRound(p *Prog, overlay map[string][]byte, round int, shared bool) (ma
 					tested, kind, field = id, "false", f
 				}
 			case *ast.BinaryExpr:
+				// `ok && rest`: a return known to yield false skips the branch, the others take the whole test
+				if x.Op == token.LAND {
+					lx := x.X
+					for {
+						pe, ok := lx.(*ast.ParenExpr)
+						if !ok {
+							break
+						}
+						lx = pe.X
+					}
+					if id, ok := lx.(*ast.Ident); ok {
+						tested, kind = id, "true-conj"
+					} else if u, ok := lx.(*ast.UnaryExpr); ok && u.Op == token.NOT {
+						if id, ok := u.X.(*ast.Ident); ok {
+							tested, kind = id, "false-conj"
+						}
+					}
+					break
+				}
 				id, ok1 := x.X.(*ast.Ident)
 				nl, ok2 := x.Y.(*ast.Ident)
 				if ok1 && ok2 && nl.Name == "nil" && info.Uses[nl] == types.Universe.Lookup("nil") {
@@ -737,6 +756,9 @@ func inlineRound(p *Prog, overlay map[string][]byte, round int, shared bool) (ma
 	var sites []*inlineSite
 	allInlinable := map[*types.Func]bool{}
 	for o, fd := range decls {
+		if os.Getenv("FCHECK_DEBUG") != "" && !pinned[funcObjKey(o)] && !o.Exported() {
+			fmt.Printf("inlining: candidate %s uses=%d shared=%v\n", funcObjKey(o), len(uses[o]), shared)
+		}
 		if len(uses[o]) == 0 || len(uses[o]) > 24 {
 			continue
 		}
@@ -1600,6 +1622,10 @@ func buildInline(s *inlineSite, pre string, info *types.Info, pkg *types.Package
 			then = map[string]string{"true": "then", "false": "skip"}[val]
 		case "false":
 			then = map[string]string{"true": "skip", "false": "then"}[val]
+		case "true-conj":
+			then = map[string]string{"false": "skip"}[val]
+		case "false-conj":
+			then = map[string]string{"true": "skip"}[val]
 		}
 		if then == "" {
 			return "unknown"
